@@ -174,7 +174,7 @@ def reduced_ops(t):
 
 def cases(tier):
     for t in TYPES:
-        for n in (7, 8, 9, 16, 17, 100, 255, 256, 1000) if tier == "thorough" else (8, 9, 17, 300):
+        for n in (7, 8, 9, 16, 17, 100, 255, 256, 1000, 1024, 1025, 2049) if tier == "thorough" else (8, 9, 17, 300, 1100):
             yield {"k": "sizes", "type": t, "n": n}
     for t in TYPES:
         ops = ops_for(t, tier)
@@ -394,11 +394,33 @@ def run_sizes(case):
         for i in range(12):
             hist.append(("subsection", "u%d" % i, "-", None))
         hist += [("dict-del", "q10", "-", None), ("dict-del", "q3", "-", None), ("create", "q3", "list", many(t, 2)), ("reopen", "-", "-", None)]
+        # long candidate lists with ONE value of another type somewhere in the middle / at the end: refused, nothing changes
+        for u in TYPES:
+            if u == t:
+                continue
+            for pos in (n // 2, max(n, 300) - 1):
+                for how in ("assign", "extend"):
+                    cand = many(t, max(n, 300), 8)
+                    cand[pos] = ONE[u]
+                    hist.insert(3, (how, "p", "bad:long-mixed-%s@%d" % (u, pos), cand))
         for op in hist:
             r.evals += 1
             r.nontrivial += 1
             exp = model_step(m, op)
-            opk = "sizes-n%d:%s:%s" % (n, op[0], len(op[3]) if isinstance(op[3], list) else op[2])
+            opk = "sizes-n%d:%s:%s" % (n, op[0], op[2] if str(op[2]).startswith("bad") else (len(op[3]) if isinstance(op[3], list) else op[2]))
+            if str(op[2]).startswith("bad"):
+                try:
+                    impl_step(sec, op, t)
+                    bexc = None
+                except Exception as e:  # noqa
+                    bexc = e
+                if exp == "ok" or bexc is None or not isinstance(bexc, TypeError):
+                    r.viol("C10|%s|sizes|long-mixed-list|%s" % (t, "accepted" if bexc is None else "refused-with-" + type(bexc).__name__),
+                           "type %s: %s of %d values with one %s at position %s: %r" % (t, op[0], len(op[3]), op[2].split("-")[-1], op[2].split("@")[-1], bexc), {})
+                    return r
+                if not verify(r, sec, m, t, opk, "in-session"):
+                    return r
+                continue
             if op[0] == "reopen":
                 f.close()
                 f = nix.File.open(path, nix.FileMode.ReadWrite)
